@@ -19,6 +19,7 @@ type evRec struct {
 	Exit    int64  `json:"exit"`  // logical clock at exit
 	Ord     int64  `json:"ord"`   // ordinal of the invocation (entry order)
 	Others  int32  `json:"others"`
+	Subject string `json:"subject,omitempty"` // boxrace only: identifies the delivery of a stored event
 }
 
 // recorder is the harness's after-event listener.  All state is atomic or behind mu.
@@ -28,8 +29,10 @@ type recorder struct {
 	ord      atomic.Int64
 	done     atomic.Int64
 	seed     uint64
-	mu       sync.Mutex
-	recs     []evRec
+	// keepSubject (set before the listener is registered, never changed) records the event's subject.
+	keepSubject bool
+	mu          sync.Mutex
+	recs        []evRec
 }
 
 func mix(x uint64) uint64 {
@@ -63,7 +66,11 @@ func (rc *recorder) handle(kind string, md event.MessageMetadata) {
 	exit := rc.clock.Add(1)
 	rc.inflight.Add(-1)
 	rc.mu.Lock()
-	rc.recs = append(rc.recs, evRec{Kind: kind, Mailbox: md.Mailbox, ID: md.ID, Enter: enter, Exit: exit, Ord: ord, Others: others})
+	rec := evRec{Kind: kind, Mailbox: md.Mailbox, ID: md.ID, Enter: enter, Exit: exit, Ord: ord, Others: others}
+	if rc.keepSubject {
+		rec.Subject = md.Subject
+	}
+	rc.recs = append(rc.recs, rec)
 	rc.mu.Unlock()
 	rc.done.Add(1)
 }
